@@ -29,21 +29,22 @@ import (
 const tickNs = int64(1) << 30
 
 type CacheCfg struct {
-	MaxSize    int      `json:"max_size,omitempty"`
-	MaxWeight  uint64   `json:"max_weight,omitempty"`
-	Expiry     string   `json:"expiry,omitempty"`  // "", creating, writing, accessing, custom
-	TTL        int64    `json:"ttl,omitempty"`     // default duration returned by the expiry calculator
-	Refresh    string   `json:"refresh,omitempty"` // "", creating, writing
-	RefreshTTL int64    `json:"refresh_ttl,omitempty"`
-	Executor   string   `json:"executor,omitempty"` // caller (default) | default | deferred
-	InitCap    int      `json:"init_cap,omitempty"`
-	Stats      bool     `json:"stats,omitempty"`
-	ClockStart int64    `json:"clock_start,omitempty"`
-	WriteMax   uint32   `json:"write_max,omitempty"` // override of maxWriteBufferSize
-	Collide    bool     `json:"collide,omitempty"`   // every key hashes to the same bucket and meta byte
-	Hashes     []uint64 `json:"hashes,omitempty"`    // per-key hash override (index = key)
-	NoHandlers bool     `json:"no_handlers,omitempty"`
-	SampleSize uint64   `json:"sample_size,omitempty"` // small-scope sample period of the hill climber (sequential runs only)
+	MaxSize     int      `json:"max_size,omitempty"`
+	MaxWeight   uint64   `json:"max_weight,omitempty"`
+	Expiry      string   `json:"expiry,omitempty"`  // "", creating, writing, accessing, custom
+	TTL         int64    `json:"ttl,omitempty"`     // default duration returned by the expiry calculator
+	Refresh     string   `json:"refresh,omitempty"` // "", creating, writing
+	RefreshTTL  int64    `json:"refresh_ttl,omitempty"`
+	Executor    string   `json:"executor,omitempty"` // caller (default) | default | deferred
+	InitCap     int      `json:"init_cap,omitempty"`
+	Stats       bool     `json:"stats,omitempty"`
+	ClockStart  int64    `json:"clock_start,omitempty"`
+	WriteMax    uint32   `json:"write_max,omitempty"` // override of maxWriteBufferSize
+	Collide     bool     `json:"collide,omitempty"`   // every key hashes to the same bucket and meta byte
+	Hashes      []uint64 `json:"hashes,omitempty"`    // per-key hash override (index = key)
+	NoHandlers  bool     `json:"no_handlers,omitempty"`
+	SampleSize  uint64   `json:"sample_size,omitempty"`  // small-scope sample period of the hill climber (sequential runs only)
+	WeightShift uint     `json:"weight_shift,omitempty"` // weigher returns (value & 15) << shift: large, byte-size like weights
 }
 
 func (c CacheCfg) String() string {
@@ -243,7 +244,7 @@ func NewRig(cfg CacheCfg, x *Exec) *Rig {
 		Logger:          &otter.NoopLogger{},
 	}
 	if cfg.MaxWeight > 0 {
-		o.Weigher = func(k, v int) uint32 { return valWeight(v) }
+		o.Weigher = func(k, v int) uint32 { return valWeight(v) << cfg.WeightShift }
 	}
 	switch cfg.Executor {
 	case "", "caller":
